@@ -879,8 +879,12 @@ private:
         while (old_size < new_size && !this->my_size.compare_exchange_weak(old_size, new_size))
         {}
 
-        if (old_size < new_size) {
-            return internal_grow(old_size, new_size, args...);
+        iterator result(*this, 0);
+        const bool has_grown = old_size < new_size;
+        if (has_grown) {
+            // Segments below the claimed range may still be being allocated by the threads that claimed them:
+            // wait for them as well, so that the storage of all elements below new_size exists on return
+            result = internal_grow(old_size, new_size, args...);
         }
 
         size_type end_segment = this->segment_index_of(new_size - 1);
@@ -905,7 +909,7 @@ private:
         size_type cap = capacity();
         __TBB_ASSERT( cap >= new_size, nullptr);
     #endif
-        return iterator(*this, size());
+        return has_grown ? result : iterator(*this, size());
     }
 
     template <typename... Args>
